@@ -9,9 +9,9 @@
    [result (bool * state)].  [adapt] converts the former into the latter: the state reached when Python raises is
    dropped, i.e. THE STATE ON ERROR IS NOT LINKED (only the exception class is).
    The window size _allowed_consecutive_violations is a Python int (Z) in the generated code and a nat in the model:
-   the lemmas about check_termination / termination_check carry the hypothesis [0 <= v], the invariant the
+   the lemmas about check_termination / termination_check carry the premise [0 <= v], the invariant the
    constructors establish (link_*_init: a negative v raises ValueError; SPSA's constructor does not check it — there
-   the hypothesis is the documented precondition "Must be at least 0"). *)
+   the premise is the documented precondition "Must be at least 0"). *)
 From QV Require Import Translate.PyPrelude Translate.PyPrelude_proofs.
 From QV Require Import Crit.Criteria Crit.Spsa.
 From QVGen Require Import C13Gen.
@@ -123,7 +123,7 @@ Proof.
 Qed.
 Print Assumptions link_directed_distance.
 
-(* Hypothesis: not (no value in result_1 but some in result_2).  In that single case Python computes
+(* Premise: not (no value in result_1 but some in result_2).  In that single case Python computes
    median([]) = nan (a warning, no exception) and then raises ValueError from min() of nothing in the second directed
    distance; NaN is not modelled: the spec maps median([]) to Err "nan", the model answers Err "ValueError".  The
    property assumes every evaluation carries a value (meta: assumptions). *)
@@ -179,7 +179,7 @@ Proof.
   destruct (ext_max_seq _) as [m|e]; cbn [bind]; [|reflexivity]. destruct (ext_ltb m (Fin thr)); reflexivity.
 Qed.
 
-(* Hypothesis [0 <= v]: constructor invariant.  Hypothesis on the stored evaluation: see link_hausdorff (it holds when
+(* Premise [0 <= v]: constructor invariant.  Premise on the stored evaluation: see link_hausdorff (it holds when
    every evaluation passed to check_termination carries at least one expectation value). *)
 Lemma link_Pop_check : forall thr v ev s, 0 <= v ->
   (forall last, p_last s = Some last -> somes (values last) = [] -> somes (values ev) = []) ->
@@ -221,3 +221,84 @@ Proof.
   - apply (window_link_if _ thr v _ Hv).
 Qed.
 Print Assumptions link_PopRel_check.
+
+(* ------------------------------------------------------------------ SPSATerminationChecker *)
+Lemma len_lt_nat {A} (h : list A) (k : nat) : (py_len h <? Z.of_nat k) = (List.length h <? k)%nat.
+Proof.
+  unfold py_len. destruct (Z.ltb_spec (Z.of_nat (List.length h)) (Z.of_nat k)); destruct (Nat.ltb_spec (List.length h) k); try reflexivity; lia.
+Qed.
+
+(* l[-k] for 1 <= k <= len(l) *)
+Lemma py_index_neg {A} (l : list A) (k : nat) : (1 <= k)%nat -> (k <= List.length l)%nat ->
+  py_index l (- Z.of_nat k) = match nth_error l (List.length l - k) with Some x => Ok x | None => Err "IndexError"%string end.
+Proof.
+  intros H1 H2. unfold py_index, py_len.
+  replace (- Z.of_nat k <? 0) with true by (symmetry; apply Z.ltb_lt; lia).
+  replace (- Z.of_nat k + Z.of_nat (List.length l) <? 0) with false by (symmetry; apply Z.ltb_ge; lia).
+  replace (Z.of_nat (List.length l) <=? - Z.of_nat k + Z.of_nat (List.length l)) with false by (symmetry; apply Z.leb_gt; lia).
+  cbn [orb]. replace (Z.to_nat (- Z.of_nat k + Z.of_nat (List.length l))) with (List.length l - k)%nat by lia. reflexivity.
+Qed.
+
+(* the tail of termination_check: the two answers carry different states (self._done = True before `return True`) *)
+Lemma window_link2 {S} (s1 s2 : S) thr v h : 0 <= v ->
+  (if py_len h <? v + 1 then Ok (false, s1)
+   else do m <- ext_max_seq (py_slice h (Some (- v - 1)) None); if ext_ltb m (Fin thr) then Ok (true, s2) else Ok (false, s1))
+  = match window_answer (Z.to_nat v) thr h with Ok true => Ok (true, s2) | Ok false => Ok (false, s1) | Err e => Err e end.
+Proof.
+  intros Hv. unfold window_answer. rewrite len_lt_window, slice_window by exact Hv.
+  destruct (List.length h <? Z.to_nat v + 1)%nat; [reflexivity|].
+  destruct (lastn (Z.to_nat v + 1) h) as [|x r]; [reflexivity|]. cbn [ext_max_seq bind]. fold (py_max_ext x r).
+  destruct (ext_ltb (py_max_ext x r) (Fin thr)); reflexivity.
+Qed.
+
+Lemma link_Spsa_init : forall thr v maxfev, gen_Spsa_init thr v maxfev = spsa_init.
+Proof. reflexivity. Qed.
+Print Assumptions link_Spsa_init.
+
+Lemma link_Spsa_check : forall thr v maxfev n par f acc s, 0 <= v ->
+  gen_Spsa_check thr v maxfev n par f acc s
+  = adapt (spsa_step repaired thr (Z.to_nat v) maxfev s {| si_n := n; si_par := par; si_f := f; si_acc := acc |}).
+Proof.
+  intros thr v maxfev n par f acc [fvh chh nf nfh bf bp dn] Hv.
+  (* one call-by-value step to the let-free form (a step-by-step unfolding makes the kernel compare chains of
+     record projections of nested lets, which is exponential in the number of assignments) *)
+  cbv beta iota zeta delta [gen_Spsa_check spsa_step boundary_hit maxfev_hit spsa_init repaired nonincreasing_boundary
+                            si_n si_par si_f si_acc fv_hist ch_hist nfe nfe_hist best_f best_par done].
+  destruct (dn || (n <=? nf)).
+  all: destruct maxfev as [m|]; [destruct (m <=? n); [reflexivity|]|].
+  all: destruct acc; [|reflexivity]; cbn [negb].
+  all: match goal with |- context [ext_ltb (Fin ?x) ?b] => destruct (ext_ltb (Fin x) b) end.
+  all: change 2 with (Z.of_nat 2); rewrite len_lt_nat.
+  all: match goal with |- context [(List.length ?l <? 2)%nat] => destruct (Nat.ltb_spec (List.length l) 2) as [Hl|Hl]; [reflexivity|] end.
+  all: change (-2) with (- Z.of_nat 2); rewrite !py_index_neg by (assumption || lia).
+  all: match goal with |- context [nth_error ?l ?k] => destruct (nth_error l k) as [prev|]; [|reflexivity]; cbn [bind] end.
+  all: unfold rel_change, qdiv; cbn [zero_guard abs_denominator andb]; change (inject_Z 0) with 0%Q.
+  all: destruct (Qeq_bool prev 0); cbn [negb bind].
+  all: try (destruct (Qeq_bool (Qabs prev) 0); cbn [bind]; [reflexivity|]).
+  all: rewrite window_link2 by exact Hv.
+  all: destruct (window_answer (Z.to_nat v) thr _) as [[|]|]; reflexivity.
+Qed.
+Print Assumptions link_Spsa_check.
+
+(* the public accessors read the fields the model's observation [spsa_trace] reads (o_nfe, o_fv, o_nh, o_best, o_par) *)
+Lemma link_Spsa_get_nfe : forall s, gen_Spsa_get_nfe s = (nfe s, s).
+Proof. reflexivity. Qed.
+Print Assumptions link_Spsa_get_nfe.
+
+Lemma link_Spsa_get_fv_history : forall s, gen_Spsa_get_fv_history s = (fv_hist s, s).
+Proof. reflexivity. Qed.
+Print Assumptions link_Spsa_get_fv_history.
+
+Lemma link_Spsa_get_nfe_history : forall s, gen_Spsa_get_nfe_history s = (nfe_hist s, s).
+Proof. reflexivity. Qed.
+Print Assumptions link_Spsa_get_nfe_history.
+
+Lemma link_Spsa_get_best_value : forall s, gen_Spsa_get_best_value s = (best_f s, s).
+Proof. reflexivity. Qed.
+Print Assumptions link_Spsa_get_best_value.
+
+(* raises ValueError while no accepted callback has been recorded *)
+Lemma link_Spsa_get_best_parameters : forall s,
+  gen_Spsa_get_best_parameters s = match best_par s with Some p => Ok (p, s) | None => Err "ValueError"%string end.
+Proof. reflexivity. Qed.
+Print Assumptions link_Spsa_get_best_parameters.
